@@ -498,7 +498,7 @@ def case_direct(log):
             for bm in BACKWARD:
                 def run():
                     FR.n = 0
-                    A = FR.arr("A", (k, dim, dim))
+                    A = FR.arr("A", (k, dim, dim), real=True)
                     a_s = SR.var("a_s")
                     assume(a_s, ">0")
                     kind, detail = _outcome(lambda: qk.build_ome(A, (k, 0), a_s, qk.MatchingMethods[bm]), (dim, dim))
